@@ -86,6 +86,46 @@ func (f *sIndex) GetLIDsFromTIDs(tids []uint32, _ lids.Counter, minLID, maxLID u
 
 var sIndexCache = map[string]*sIndex{}
 
+// midOf: the documents are 10 apart in time (newest = LID 1), so that a time window can fall into a gap between two of them
+func midOf(u, l int) seq.MID { return seq.MID(1000 + 10*(u-l)) }
+
+// window is a search time window; all = the whole fraction
+type window struct {
+	name     string
+	from, to seq.MID
+}
+
+// windowsFor: the whole fraction, single-document windows (newest, a middle one, oldest), windows that fall into a gap
+// between two documents (empty border range: no LID qualifies) and windows entirely before / after the fraction
+func windowsFor(k int) []window {
+	u := 1 << k
+	mid := u / 2
+	return []window{
+		{"all", 0, seq.MID(1 << 40)},
+		{"single-newest", midOf(u, 1), midOf(u, 1)},
+		{"single-middle", midOf(u, mid), midOf(u, mid)},
+		{"single-oldest", midOf(u, u), midOf(u, u)},
+		{"gap-middle", midOf(u, mid) + 3, midOf(u, mid) + 7},
+		{"gap-top", midOf(u, 2) + 1, midOf(u, 2) + 9},
+		{"gap-bottom", midOf(u, u) + 2, midOf(u, u) + 4},
+		{"two", midOf(u, mid+1), midOf(u, mid)},
+		{"before", 1, 5},
+		{"after", midOf(u, 1) + 1, midOf(u, 1) + 100},
+	}
+}
+
+// maskWindow keeps of a truth table the documents whose time lies in the window
+func maskWindow(table string, k int, w window) string {
+	u := 1 << k
+	b := []byte(table)
+	for l := 1; l <= u; l++ {
+		if m := midOf(u, l); m < w.from || m > w.to {
+			b[l-1] = '0'
+		}
+	}
+	return string(b)
+}
+
 // lowerRunes is the index side's case rule: unicode.ToLower rune by rune (tokenizer.toLowerTryInplace, proved in C11)
 func lowerRunes(s string) string {
 	rs := []rune(s)
@@ -103,7 +143,7 @@ func indexFor(k int, cs bool) *sIndex {
 	u := 1 << k
 	f := &sIndex{ids: []seq.ID{{MID: seq.MID(^uint64(0)), RID: seq.RID(^uint64(0))}}}
 	for l := 1; l <= u; l++ {
-		f.ids = append(f.ids, seq.ID{MID: seq.MID(1000 + u - l), RID: seq.RID(l)})
+		f.ids = append(f.ids, seq.ID{MID: midOf(u, l), RID: seq.RID(l)})
 	}
 	for _, field := range []string{"fk", "ft", "fp"} {
 		for a := 0; a < k; a++ {
@@ -143,10 +183,10 @@ func indexFor(k int, cs bool) *sIndex {
 }
 
 // searchTable runs the parsed query through processor.IndexSearch on the fake index and returns the truth table.
-func searchTable(root *parser.ASTNode, k int, cs bool, order seq.DocsOrder) (string, error) {
+func searchTable(root *parser.ASTNode, k int, cs bool, order seq.DocsOrder, w window) (string, error) {
 	f := indexFor(k, cs)
 	u := 1 << k
-	qpr, err := processor.IndexSearch(context.Background(), processor.SearchParams{AST: root, From: 0, To: seq.MID(1 << 40), Limit: u + 5, WithTotal: true, Order: order},
+	qpr, err := processor.IndexSearch(context.Background(), processor.SearchParams{AST: root, From: w.from, To: w.to, Limit: u + 5, WithTotal: true, Order: order},
 		f, processor.AggLimits{}, stopwatch.New())
 	if err != nil {
 		return "", err
